@@ -463,7 +463,10 @@ AnyCellmlElementPtr Annotator::AnnotatorImpl::convertToShared(const AnyCellmlEle
 void Annotator::AnnotatorImpl::buildIdList()
 {
     mIdList.clear();
-    mIdList = listIdsAndItems(mModel.lock());
+    auto model = mModel.lock();
+    if (model != nullptr) {
+        mIdList = listIdsAndItems(model);
+    }
 }
 
 size_t Annotator::AnnotatorImpl::idCount()
@@ -531,7 +534,7 @@ bool Annotator::AnnotatorImpl::exists(const std::string &id, size_t index, bool 
     }
 
     auto count = mAnnotator->itemCount(id);
-    if (count == 1) {
+    if ((count == 1) && (index == 0)) {
         return true;
     }
     if (unique && count > 1) {
@@ -759,6 +762,12 @@ void Annotator::clearAllIds()
 
 void Annotator::clearAllIds(ModelPtr &model)
 {
+    if (model == nullptr) {
+        // Keep the current model (if any) and its identifiers untouched.
+        pFunc()->removeAllIssues();
+        pFunc()->addIssueNoModel();
+        return;
+    }
     pFunc()->mModel = model;
     clearAllIds();
 }
@@ -1281,7 +1290,7 @@ bool Annotator::AnnotatorImpl::validItem(const AnyCellmlElementPtr &item)
         break;
     case CellmlElementType::UNIT: {
         auto unitsItem = item->unitsItem();
-        result = (unitsItem != nullptr) && (unitsItem->units() != nullptr);
+        result = (unitsItem != nullptr) && unitsItem->isValid();
     } break;
     case CellmlElementType::UNITS:
         result = item->units() != nullptr;
@@ -1308,6 +1317,10 @@ void Annotator::AnnotatorImpl::removeId(const AnyCellmlElementPtr &item, const s
 std::string Annotator::AnnotatorImpl::setAutoId(const AnyCellmlElementPtr &item)
 {
     std::string newId;
+    if (item == nullptr) {
+        addIssueInvalidArgument(CellmlElementType::UNDEFINED);
+        return newId;
+    }
     if (validItem(item)) {
         if (mModel.lock() != nullptr) {
             auto oldId = id(item);
